@@ -331,7 +331,7 @@ class Rig:
         n, neg, peer = self.session(sess)
         AttributeCollection.cached = None
         AttributeCollection.previous = b''
-        return Message.unpack(msg_id, body, neg)
+        return Message.unpack(msg_id, memoryview(bytearray(body)), neg)  # writable, as the receive buffer of the real reader is
 
     def message(self, enc: str, sess: str, msg_id: int, message, hdr: bytes, body: bytes, direction: str = 'receive') -> Emitted:
         n, neg, peer = self.session(sess)
